@@ -222,6 +222,12 @@ FLAVOURS = {
     "tls": ["-O1", "-g", "-fsanitize=address,undefined", "-fno-sanitize-recover=all",
             "-fno-omit-frame-pointer", "-D_GLIBCXX_ASSERTIONS", "-DSOCKPUPPET_WITH_TLS"],
     "tlsplain": ["-O1", "-g", "-DSOCKPUPPET_WITH_TLS"],
+    # C17: as "asan" plus libstdc++'s vector annotations (writes inside capacity but past size() are reported)
+    "asanvec": ["-O1", "-g", "-fsanitize=address,undefined", "-fno-sanitize-recover=all",
+                "-fno-omit-frame-pointer", "-D_GLIBCXX_ASSERTIONS", "-D_GLIBCXX_SANITIZE_VECTOR"],
+    # C17: the shipped configuration (asserts off) under the sanitizers
+    "ndebugasan": ["-O1", "-g", "-DNDEBUG", "-fsanitize=address,undefined", "-fno-sanitize-recover=all",
+                   "-fno-omit-frame-pointer", "-D_GLIBCXX_SANITIZE_VECTOR"],
 }
 CXX = ["g++", "-std=c++17", "-pthread", "-D" + GUARD]
 
